@@ -626,13 +626,13 @@ func (pr *producer) edit(b *baseInfo, baseIdx int, ed *idlmut.Edit, r *rng.R) *c
 		os.RemoveAll(root)
 		return nil
 	case ed.Kind == 2 && perr == nil:
-		// a text edit that the parser accepts is not a syntax error: not a case
+		// the tree is ungrammatical / lacks a file BY CONSTRUCTION of the edit; a parser
+		// (this one is the implementation's, linked in) that accepts it anyway is exactly
+		// what the binary is judged on below: the case is kept, only counted here
 		pr.st.TextEditParsed++
 		if len(pr.st.TextEditParsedExamples) < 5 {
 			pr.st.TextEditParsedExamples = append(pr.st.TextEditParsedExamples, ed.What)
 		}
-		os.RemoveAll(root)
-		return nil
 	}
 	if ed.Kind == 1 {
 		c.patch = patchOf(p, b.fileCoq)
